@@ -312,6 +312,8 @@ fn format(opt: opt::Opt) -> Result<i32> {
         walker_builder.add_ignore(ignore_path);
     }
 
+    // The user provided globs, kept to also check paths given explicitly when `--respect-ignores` is set
+    let mut custom_globs = None;
     let use_default_glob = match opt.glob {
         Some(ref globs) => {
             // Build overriders with any patterns given
@@ -320,6 +322,7 @@ fn format(opt: opt::Opt) -> Result<i32> {
                 overrides.add(pattern)?;
             }
             let overrides = overrides.build()?;
+            custom_globs = Some(overrides.clone());
             walker_builder.overrides(overrides);
             // We shouldn't use the default glob anymore
             false
@@ -498,6 +501,17 @@ fn format(opt: opt::Opt) -> Result<i32> {
                                 };
                             }
                             if !DEFAULT_GLOB.is_match(&path) {
+                                continue;
+                            }
+                        }
+
+                        // If `--respect-ignores` was given and this is an explicit file path,
+                        // it must also match the globs provided by the user
+                        if let Some(custom_globs) = &custom_globs {
+                            if is_explicitly_provided(opt.as_ref(), &path)
+                                && should_respect_ignores(opt.as_ref(), &path)
+                                && custom_globs.matched(&path, false).is_ignore()
+                            {
                                 continue;
                             }
                         }
